@@ -274,6 +274,7 @@ PROPS = {
                       'differential run over all first-two-byte values plus an independent RFC header reader as monitor.',
     },
     'C19': {
+        'miri': 'mirimask',
         'families': [('pure:mask', 4, 40), ('pure:fformat', 200, 4000), ('ep:maskpaths', 1, 1)],
         'rule': 'payload lengths 0..=67 x 8 alignments x keys sweeping every value of every key byte through the real '
                 'apply_mask (hook) inside canary-filled buffers; frame pairs encoded behind each other in the shared write '
